@@ -530,6 +530,15 @@ def op_getitem_array(h, e):
     pos = resolve(desc, mm.n)
     if desc[0] == "int":
         compare_atom(ctx, res, mm, pos[0])
+        # Atom.copy(): editing the copy in place leaves the atom it was copied from (and the container) as they were
+        c = res.copy()
+        ctx.oracle("copy_independent")
+        if np.shares_memory(c.coord, res.coord):
+            ctx.fail("copy_independent", "Atom.copy() shares its coord array with the original atom")
+        c.coord += np.float32(1.25)
+        c.coord[:] = c.coord * 2
+        compare_atom(ctx, res, mm, pos[0])
+        h.changed = True
         return
     nm = mm.select_atoms(pos)
     h.add(res, nm, e.group)
